@@ -17,6 +17,7 @@ import (
 	"sort"
 	"strings"
 	"sync"
+	"sync/atomic"
 	"time"
 
 	"github.com/oneconcern/datamon/pkg/storage"
@@ -74,6 +75,7 @@ type Call struct {
 	Err     error  // result (filled after the call)
 	Landed  bool   // for mutating calls: the effect took place
 	MutIdx  int    // index among the mutating calls of this view (1-based), 0 otherwise
+	Done    int64  // global completion stamp (order in which calls finished, across all backends)
 	Size    int    // for Put: bytes
 	Comment string
 }
@@ -612,7 +614,10 @@ func (s *Store) enter(c *Call) (land bool, crashAfter bool, err error) {
 	return true, false, nil
 }
 
+var doneStamp int64
+
 func (s *Store) leave(c *Call) {
+	c.Done = atomic.AddInt64(&doneStamp, 1)
 	s.b.mu.Lock()
 	s.b.record(*c)
 	s.b.mu.Unlock()
